@@ -190,6 +190,10 @@ def validRef (r : Str) : Bool := validRefAux true r
 
 def prepend (v : Str) (r : Option (Str × Str)) : Option (Str × Str) := r.map fun p => (v ++ p.1, p.2)
 
+/-- the value of a replacement field `{name}` followed by the rest `k` of the literal -/
+def fieldValue (e : Str → Option Str) (name : Str) (k : Option (Str × Str)) : Option (Str × Str) :=
+  if validRef name then (e name).bind fun v => prepend v k else none
+
 /-- state of the literal reader -/
 inductive Mode
   | norm                       -- ordinary text
@@ -241,12 +245,7 @@ def pStr (env : Option (Str → Option Str)) (q : Nat) : Mode → Str → Option
     if c = 125 then
       match env with
       | none => none
-      | some e =>
-        if validRef acc.reverse then
-          match e acc.reverse with
-          | none => none
-          | some v => prepend v (pStr env q .norm rest)
-        else none
+      | some e => fieldValue e acc.reverse (pStr env q .norm rest)
     else if isNameChar c then pStr env q (.field (c :: acc)) rest
     else none
 
@@ -262,17 +261,16 @@ def pRaw (q : Nat) : Bool → Str → Option (Str × Str)
     else if c = 92 then prepend [92] (pRaw q true rest)
     else prepend [c] (pRaw q false rest)
 
-/-- value of the f-string `f'<body>'` given `body ++ "'"`: the whole input must be consumed -/
-def evalFE (env : Str → Option Str) (body : Str) : Option Str :=
-  match pStr (some env) 39 .norm (body ++ [39]) with
+/-- the whole input must have been consumed -/
+def whole : Option (Str × Str) → Option Str
   | some (v, []) => some v
   | _ => none
 
+/-- value of the f-string `f'<body>'` -/
+def evalFE (env : Str → Option Str) (body : Str) : Option Str := whole (pStr (some env) 39 .norm (body ++ [39]))
+
 /-- value of the plain literal `'<body>'` -/
-def evalSQ (body : Str) : Option Str :=
-  match pStr none 39 .norm (body ++ [39]) with
-  | some (v, []) => some v
-  | _ => none
+def evalSQ (body : Str) : Option Str := whole (pStr none 39 .norm (body ++ [39]))
 
 /-- a definition read the way the YAML author meant it: literal characters and references `{R}` -/
 inductive Item
@@ -300,9 +298,7 @@ def substItems (env : Str → Option Str) : List Item → Option Str
   | [] => some []
   | .lit c :: rest => (substItems env rest).map (c :: ·)
   | .ref r :: rest =>
-    match env r with
-    | some v => (substItems env rest).map (v ++ ·)
-    | none => none
+    (env r).bind fun v => (substItems env rest).map (v ++ ·)
 
 /-- what the YAML author wrote: every `{R}` with `R` one of the listed references stands for the referenced
 value, everything else is literal text. -/
@@ -375,23 +371,32 @@ def pValue (stop : Nat) (s : Str) : Option (Val × Str) :=
       | some (m, e) => some (.num m e, rest)
       | none => some (.other tok, rest)
 
+/-- one `(key, value)` entry of a `dict([...])` argument: the pair and the rest of the input -/
+def pDictEntry (s : Str) : Option ((Val × Val) × Str) :=
+  match s with
+  | 40 :: s1 =>
+    match pValue 44 s1 with
+    | some (k, 44 :: 32 :: s2) =>
+      match pValue 41 s2 with
+      | some (v, 41 :: s3) => some ((k, v), s3)
+      | _ => none
+    | _ => none
+  | _ => none
+
+/-- what follows an entry: the end `])`, or `,\n`, blanks and the next entry -/
+def afterEntry (kv : Val × Val) (rest : Str) (next : Str → Option (List (Val × Val))) : Option (List (Val × Val)) :=
+  match rest with
+  | [93, 41] => some [kv]
+  | 44 :: 10 :: s4 => (next (s4.dropWhile (· = 32))).map (kv :: ·)
+  | _ => none
+
 /-- the entries of `dict([(k, v),\n   (k, v)])` after `dict([` -/
 def pDictEntries : Nat → Str → Option (List (Val × Val))
   | 0, _ => none
   | fuel + 1, s =>
-    match s with
-    | 40 :: s1 =>
-      match pValue 44 s1 with
-      | some (k, 44 :: 32 :: s2) =>
-        match pValue 41 s2 with
-        | some (v, 41 :: s3) =>
-          match s3 with
-          | [93, 41] => some [(k, v)]
-          | 44 :: 10 :: s4 => (pDictEntries fuel (s4.dropWhile (· = 32))).map ((k, v) :: ·)
-          | _ => none
-        | _ => none
-      | _ => none
-    | _ => none
+    match pDictEntry s with
+    | some (kv, rest) => afterEntry kv rest (pDictEntries fuel)
+    | none => none
 
 /-- the entries of `[r'…', r'…']` after `[` -/
 def pRawItems : Nat → Str → Option (List Str)
@@ -419,46 +424,55 @@ def splitOn (sep : Str) : Nat → Str → Str → List Str
     if sep ≠ [] ∧ sep.isPrefixOf (c :: rest) then acc.reverse :: splitOn sep fuel [] ((c :: rest).drop sep.length)
     else splitOn sep fuel (c :: acc) rest
 
+/-- `def Name(p, q):\n    return f'…'` after `\ndef ` -/
+def evalFuncDef (t : Str) : Option (Str × DefVal) :=
+  let name := t.takeWhile isIdentChar
+  match t.drop name.length with
+  | 40 :: t1 =>
+    let ps := t1.takeWhile (· ≠ 41)
+    match stripPrefix ([41, 58, 10] ++ indent4 ++ sReturnF) (t1.drop ps.length) with
+    | some body =>
+      match body.reverse with
+      | 39 :: b => some (name, .func (if ps = [] then [] else splitOn [44, 32] (ps.length + 1) [] ps) b.reverse)
+      | _ => none
+    | none => none
+  | _ => none
+
+/-- the right-hand side of `Name = …` -/
+def evalRhs (env : Str → Option Str) (rhs : Str) : Option DefVal :=
+  match rhs with
+  | 102 :: 39 :: body => (whole (pStr (some env) 39 .norm body)).map fun v => .val (.str v)
+  | 39 :: body => (whole (pStr none 39 .norm body)).map fun v => .val (.str v)
+  | 100 :: 105 :: 99 :: 116 :: 40 :: 91 :: es =>
+    if es = [93, 41] then some (.dict []) else (pDictEntries (es.length + 1) es).map .dict
+  | 91 :: 114 :: items => (pRawItems (items.length + 2) (114 :: items)).map fun l => .val (.list l)
+  | [91, 93] => some (.val (.list []))
+  | _ =>
+    if rhs = sTrue then some (.val (.bool true))
+    else if rhs = sFalse then some (.val (.bool false))
+    else none
+
+/-- `Name = <rhs>` -/
+def evalAssign (env : Str → Option Str) (text : Str) : Option (Str × DefVal) :=
+  let name := text.takeWhile isIdentChar
+  match text.drop name.length with
+  | 32 :: 61 :: 32 :: rhs => (evalRhs env rhs).map fun v => (name, v)
+  | _ => none
+
 /-- Evaluate the text of one emitted definition (as produced by `writeToken`) in an environment of earlier
 definitions: `some (name, value)`; `none` = not of the emitted shapes / not a valid literal. -/
 def evalDef (env : Str → Option Str) (text : Str) : Option (Str × DefVal) :=
   match text with
-  | 10 :: 100 :: 101 :: 102 :: 32 :: t =>
-    -- \ndef Name(p, q):\n    return f'…'
-    let name := t.takeWhile isIdentChar
-    match t.drop name.length with
-    | 40 :: t1 =>
-      let ps := t1.takeWhile (· ≠ 41)
-      match stripPrefix ([41, 58, 10] ++ indent4 ++ sReturnF) (t1.drop ps.length) with
-      | some body =>
-        match body.reverse with
-        | 39 :: b => some (name, .func (if ps = [] then [] else splitOn [44, 32] (ps.length + 1) [] ps) b.reverse)
-        | _ => none
-      | none => none
-    | _ => none
-  | _ =>
-    let name := text.takeWhile isIdentChar
-    match text.drop name.length with
-    | 32 :: 61 :: 32 :: rhs =>
-      match rhs with
-      | 102 :: 39 :: body =>
-        match pStr (some env) 39 .norm body with
-        | some (v, []) => some (name, .val (.str v))
-        | _ => none
-      | 39 :: body =>
-        match pStr none 39 .norm body with
-        | some (v, []) => some (name, .val (.str v))
-        | _ => none
-      | 100 :: 105 :: 99 :: 116 :: 40 :: 91 :: es =>
-        if es = [93, 41] then some (name, .dict [])
-        else (pDictEntries (es.length + 1) es).map fun d => (name, .dict d)
-      | 91 :: 114 :: items => (pRawItems (items.length + 2) (114 :: items)).map fun l => (name, .val (.list l))
-      | [91, 93] => some (name, .val (.list []))
-      | _ =>
-        if rhs = sTrue then some (name, .val (.bool true))
-        else if rhs = sFalse then some (name, .val (.bool false))
-        else none
-    | _ => none
+  | 10 :: 100 :: 101 :: 102 :: 32 :: t => evalFuncDef t
+  | _ => evalAssign env text
+
+/-- the text of a block as it stands in the generated file, without the class indent: `generate` re-splits the
+writer's text with `str.splitlines()` and writes the lines one by one, so every line-break character the text
+contains (U+0085, U+2028, … inside a definition) becomes a line feed. -/
+def fileText (text : Str) : Str := join [10] (splitlines text)
+
+/-- the value of a definition as the generated module holds it -/
+def evalBlock (env : Str → Option Str) (text : Str) : Option (Str × DefVal) := evalDef env (fileText text)
 
 /-- calling an evaluated `def Name(params): return f'body'` with positional arguments: the parameters are the
 only names in scope that the body can mention (a class attribute is not visible inside the function). -/
